@@ -197,7 +197,7 @@ LOAD = Contract(
                           'cum(rv.segments[k].src) == (0 if k == 1 else cum(rv.segments[k - 1].src + 1)), 1, length(rv.segments))'),
             ('cum_now', 'cum(_it0) == (0 if length(rv.segments) <= 1 else cum(rv.segments[length(rv.segments) - 1].src + 1))'),
             ('first_moof', '(is_none(segment_start_number) and is_none(representation_start_time) and segment_end_time == 0 '
-                           'and nmoof(_it0) == 0) if _it0 <= fm '
+                           'and nmoof(_it0) == 0 and rv.start_number == 1) if _it0 <= fm '
                            'else (nmoof(_it0) >= 1 and et(fm) == 0 and not is_none(segment_start_number) and '
                            'rv.start_number == optval(segment_start_number) and '
                            'optval(segment_start_number) == seqno(fm) and not is_none(representation_start_time) and '
